@@ -12,7 +12,7 @@ REQUIRED_MONITORS = ["explicit-order@SSI_mpe", "explicit-order@pLSCF_mpe", "find
 ALL_STATES = ["order:int", "order:list", "mode missing at the order", "nearest pole belongs to another requested mode", "all found", "none found",
               "with covariances", "find_min: qualifying order exists", "find_min: two stable poles in one band at a lower order",
               "find_min: f>1Hz pole between absolute and relative band", "f<1Hz requests"]
-REQUIRED_STATES = ["class-level extraction: empty pole slot above the selected poles", "find_min: unstable pole nearer to the request than the stable one",
+REQUIRED_STATES = ["whole-number requests of integer type", "class configured with ordmin > 0", "class-level extraction: empty pole slot above the selected poles", "find_min: unstable pole nearer to the request than the stable one",
                    "nearest pole in an rtol^2 sliver at a band edge", "two retained poles in the band, the farther one in an earlier row", "successive mpe calls with different rtol", "order:int", "order:list", "mode missing at the order", "nearest pole belongs to another requested mode", "with covariances",
                    "find_min: qualifying order exists", "find_min: two stable poles in one band at a lower order",
                    "find_min: f>1Hz pole between absolute and relative band"]
@@ -170,6 +170,11 @@ def run_explicit(ctx, rng):
     nreq = int(rng.integers(1, m + 1))
     pick = np.sort(rng.permutation(m)[:nreq])
     req = [float(modes[k] * (1 + 0.3 * rtol * rng.uniform(-1, 1))) for k in pick]
+    req_arg = None
+    if not low and rng.random() < 0.2 and all(abs(round(modes[k]) - modes[k]) <= 0.25 * rtol * modes[k] and round(modes[k]) >= 1 for k in pick):
+        req = [float(round(modes[k])) for k in pick]
+        req_arg = [int(v) for v in req]  # what a user types: sel_freq=[2, 5, 9]
+        ctx.state("whole-number requests of integer type")
     valid = [o for o in range(no) if np.isfinite(Fn[:, o]).any()]
     if not valid:
         ctx.not_judged("table without retained poles")
@@ -219,13 +224,13 @@ def run_explicit(ctx, rng):
             other = True
     # SSI
     kw = dict(Fn_cov=covs[0].copy(), Xi_cov=covs[1].copy(), Phi_cov=covs[2].copy()) if with_cov else {}
-    ret = ssi.SSI_mpe(list(req), Fn, Xi, Phi, order_arg, Lab=None, rtol=rtol, **kw)
+    ret = ssi.SSI_mpe(list(req_arg if req_arg is not None else req), Fn, Xi, Phi, order_arg, Lab=None, rtol=rtol, **kw)
     r1 = judge_explicit(ctx, "explicit-order@SSI_mpe", "ssi_explicit", req, orders, order_arg, rtol, tabs, covs if with_cov else None, ret)
     if rng.random() < 0.4:
         t3, c3, ret3 = through_class(ctx, rng, "explicit-order@SSIcov.mpe(synthetic tables)", "ssi_cls_synth", req, orders, order_arg, rtol, Fn, Xi, Phi, Lab, covs)
         judge_explicit(ctx, "explicit-order@SSIcov.mpe(synthetic tables)", "ssi_cls_synth_explicit", req, orders, order_arg, rtol, t3, c3, ret3)
     # pLSCF
-    ret2 = plscf.pLSCF_mpe(list(req), Fn, Xi, Phi, order_arg, Lab=None, rtol=rtol)
+    ret2 = plscf.pLSCF_mpe(list(req_arg if req_arg is not None else req), Fn, Xi, Phi, order_arg, Lab=None, rtol=rtol)
     r2 = judge_explicit(ctx, "explicit-order@pLSCF_mpe", "plscf_explicit", req, orders, order_arg, rtol, tabs, None, tuple(ret2) + (None, None, None))
     ctx.check(all(np.array_equal(a, b, equal_nan=True) for a, b in zip((Fn, Xi, Phi), tabs)), "tables_modified", "extraction modified the pole tables")
     if r1 is None and r2 is None:
@@ -447,7 +452,10 @@ def run_real(ctx, rng):
 
     data, fn, xi, _ = gen.sim_response(rng, 4, 5000, 100.0, m=3)
     ss = SingleSetup(data, 100.0)
-    a = SSIcov(name="ssi", br=8, ordmax=16, calc_unc=bool(rng.random() < 0.3), nb=20, hc=dict(conj=True, xi_max=0.1, mpc_lim=0.5, mpd_lim=0.5, cov_max=1e9))
+    ordmin_a = int(rng.choice([0, 0, 4, 8]))  # a class configured with ordmin > 0 reports table orders all the same
+    if ordmin_a:
+        ctx.state("class configured with ordmin > 0")
+    a = SSIcov(name="ssi", br=8, ordmax=16, ordmin=ordmin_a, calc_unc=bool(rng.random() < 0.3), nb=20, hc=dict(conj=True, xi_max=0.1, mpc_lim=0.5, mpd_lim=0.5, cov_max=1e9))
     p = pLSCF(name="plscf", ordmax=8, nxseg=512)
     ss.add_algorithms(a, p)
     ss.run_all()
